@@ -72,6 +72,12 @@ def compare(run, case, via_yaml, scratch, contracts=None):
              model_ok=model.ok)
         return model
     alt = None
+    if any(k == "data_object_as_parameter" for k, _ in model.dontcare):
+        # a data object stored in the context by CopyDataProbe reached a parameter (via rename / a parameter-named
+        # context key): what float(obj) / str(obj) / obj * 2 do belongs to the data-type classes, not to the
+        # documented node semantics -> not compared (counted)
+        run.count("data_object_as_parameter_not_compared")
+        return model
     if model.dontcare:
         alt = rm.run_pipeline(nodes, data, ctx, absent_delete="noop")
         run.count("dontcare_cases")
